@@ -183,7 +183,14 @@ def build_harness(name, shims, tags="verif", extra_replace=None, timeout=600):
     json.dump({"Replace": rep}, open(ov, "w"))
     shutil.copy(os.path.join(REPO, "go.sum"), os.path.join(HARNESS, "go.sum"))
     binp = os.path.join(BUILD, "bin", name)
-    cmd = ["go", "build", "-tags", tags, "-overlay", ov, "-ldflags=-checklinkname=0", "-o", binp, "./" + name]
+    cmd = ["go", "build", "-tags", tags, "-overlay", ov, "-ldflags=-checklinkname=0", "-o", binp]
+    if os.path.realpath(REPO) != "/repo":
+        # a tree other than /repo (scratch copy with a seeded change): same module file with the replace redirected
+        mf = os.path.join(odir, "go.mod")
+        open(mf, "w").write(open(os.path.join(HARNESS, "go.mod")).read().replace("=> /repo", "=> " + os.path.realpath(REPO)))
+        shutil.copy(os.path.join(REPO, "go.sum"), os.path.join(odir, "go.sum"))
+        cmd += ["-modfile", mf]
+    cmd += ["./" + name]
     rc, out = sh(cmd, cwd=HARNESS, timeout=timeout, env=GOENV)
     return rc == 0, out, binp
 
